@@ -10,6 +10,7 @@ from sfa.model import FuncInfo
 from sfa.model import call_name
 from sfa.model import norm
 from sfa.model import walk_local
+from sfa import roles
 from sfa.report import Ctx
 
 SERIES_READS = ('self._series.values', 'self._series.items()', 'self._series.__getitem__', 'self._series[',
@@ -109,13 +110,25 @@ def bus_lru(ctx: Ctx) -> None:
              'cell and the count together; Bus.__init__ rejects max_persist below the number already loaded', floor=6)
     prog = ctx.prog
     f = prog.method('Bus', '_update_series_cache_iloc', inherited=False)
-    loops = [n for n in f.node.body if isinstance(n, ast.For)]
-    main = None
-    for lp in loops:
-        if any('_loaded[' in norm(s) and '= True' in norm(s) for s in ast.walk(lp) if isinstance(s, ast.Assign)):
-            main = lp
+    # locals by role, never by name: the count is what is compared with self._max_persist, the array is the working copy of
+    # self._series.values, the frame is the second loop target of the load loop
+    fnode = roles.canonical(f.node, {
+        'loaded_count': roles.compared_with(f.node, lambda e: norm(e) == 'self._max_persist') or roles.assigned_from(f.node, lambda e: norm(e) == 'self._loaded.sum()'),
+        'array': roles.assigned_from(f.node, roles.contains_text('self._series.values')),
+    })
+
+    def load_loop(node: ast.AST) -> tp.Optional[ast.For]:
+        found = None
+        for lp in [n for n in node.body if isinstance(n, ast.For)]:
+            if any('_loaded[' in norm(s) and '= True' in norm(s) for s in ast.walk(lp) if isinstance(s, ast.Assign)):
+                found = lp
+        return found
+    main = load_loop(fnode)
     if main is None:
         raise AnalysisError('anchor vanished: load loop of Bus._update_series_cache_iloc')
+    if isinstance(main.target, ast.Tuple) and len(main.target.elts) == 2 and isinstance(main.target.elts[1], ast.Name):
+        fnode = roles.canonical(fnode, {'frame': main.target.elts[1].id})
+        main = load_loop(fnode)
     body = main.body
     # positions of the top-level statements
     def find(pred) -> tp.Optional[int]:
